@@ -1,6 +1,7 @@
 package main
 
 import (
+	"encoding/json"
 	"fmt"
 	"math/rand"
 	"strings"
@@ -35,7 +36,10 @@ func c10Event(c obj, kind string) obj {
 		for _, e := range blk {
 			probe += e.(map[string]any)["v"].(string) + ";"
 		}
-		doc := orderedJSON([][2]any{{"env", orderedJSON(pairs)}, {"steps", []any{obj{"command": probe}}}})
+		// the same probe text also sits in a top-level setting, written BEFORE the env block: "the rest of the
+		// pipeline" is not only the steps
+		doc := orderedJSON([][2]any{{"agents", orderedJSON{{"queue", probe}}}, {"env", orderedJSON(pairs)}, {"steps", []any{obj{"command": probe}}},
+			{"notify", []any{orderedJSON{{"email", probe}}}}})
 		src := string(asciiJSON(doc))
 		pl, err := pipeline.Parse(strings.NewReader(src))
 		if err != nil && !warning.Is(err) {
@@ -59,6 +63,17 @@ func c10Event(c obj, kind string) obj {
 		if cs, ok := pl.Steps[0].(*pipeline.CommandStep); ok {
 			ev["probe"] = cs.Command
 		}
+		ev["probetop"] = []string{"<missing>", "<missing>"}
+		if ierr == nil {
+			tb, _ := json.Marshal(pl.RemainingFields)
+			var top struct {
+				Agents struct{ Queue string } `json:"agents"`
+				Notify []struct{ Email string } `json:"notify"`
+			}
+			if json.Unmarshal(tb, &top) == nil && len(top.Notify) == 1 {
+				ev["probetop"] = []string{top.Agents.Queue, top.Notify[0].Email}
+			}
+		}
 		lk := []any{}
 		lnames := append([]string{}, names...)
 		for _, kv := range fb {
@@ -79,6 +94,7 @@ func c10Event(c obj, kind string) obj {
 		}
 		ev["panicmsg"] = msg
 		ev["err"], ev["block"], ev["probe"], ev["lookups"] = false, []any{}, "", []any{}
+		ev["probetop"] = []string{"", ""}
 	}
 	return ev
 }
